@@ -3,6 +3,7 @@ package main
 import (
 	"fmt"
 	"go/token"
+	"strings"
 
 	"golang.org/x/tools/go/ssa"
 )
@@ -376,10 +377,11 @@ func c10Image(p *Prog, r *Report) {
 	}
 	// limit edge returns ErrFileReadLimitExceeded
 	for _, ed := range alH {
-		fa.noPath("D4-image", "limit-returns-sentinel", edgeStart(ed), func(in ssa.Instruction) bool {
+		w := findPathPSEdge(ed, func(in ssa.Instruction) bool {
 			ret, ok := in.(*ssa.Return)
 			return ok && !(isNilConst(retVal(ret, 0)) && loadsGlobal(retVal(ret, 1), fp(ipkg), "ErrFileReadLimitExceeded"))
-		}, nil, nil, "reaching the limit returns (nil, ErrFileReadLimitExceeded)", "reaching the byte limit does not return (nil, ErrFileReadLimitExceeded)")
+		}, nil)
+		r.Check(w == nil, "D4-image", fa.key+":limit-returns-sentinel", p.Pos(ed.To().Instrs[0].Pos()), "reaching the limit returns (nil, ErrFileReadLimitExceeded)", "reaching the byte limit does not return (nil, ErrFileReadLimitExceeded); witness path (SSA blocks): "+strings.Join(w, "→"))
 	}
 	// caller: on error the entry is skipped (continue) or the fill aborts — never inserted
 	fill := p.Func(ipkg, "fillChainLayersWithFilesFromTar")
